@@ -128,21 +128,37 @@ def ecdh25519PointRead (inp : Bytes) : Option (Bytes × Bytes) :=
   | none => none
   | some (q, rest) => if q.length ≠ Gen.ecdh25519RdLen then none else some (q.drop 1, rest)
 
-/-! ## Curve25519Legacy secret: little-endian scalar stored reversed, NOT stripped -/
+/-! ## Curve25519Legacy secret: little-endian scalar stored reversed (an MPI) -/
 
-/-- `ecdh::SecretKey::to_mpi` (Curve25519Legacy): `Mpi::from_raw(to_bytes_rev())` then
-`Serialize for Mpi` -/
-def c25519SecretMpi (le : Bytes) : Bytes := mpiWrite le.reverse
+/-- pre-repair (D8f): `ecdh::SecretKey::to_mpi` wrote `Mpi::from_raw(to_bytes_rev())`, NOT stripped -/
+def c25519SecretMpiPreFix (le : Bytes) : Bytes := mpiWrite le.reverse
 
-/-- `Mpi::try_from_reader` then `Curve25519Legacy::try_from_bytes_rev`: reverse, then
-`pad_key::<32>` (which pads on the LEFT of the reversed, i.e. little-endian, string) -/
-def c25519SecretRead (inp : Bytes) : Option (Bytes × Bytes) :=
+/-- pre-repair (D8f): `try_from_bytes_rev` reversed first and then `pad_key::<32>` padded on the LEFT of
+the reversed, i.e. little-endian, string — a short value was multiplied by 256^k -/
+def c25519SecretReadPreFix (inp : Bytes) : Option (Bytes × Bytes) :=
   match mpiRead inp with
   | none => none
   | some (d, rest) =>
     match padKey Gen.c25519PadLen d.reverse with
     | none => none
     | some k => some (k, rest)
+
+/-- `ecdh::SecretKey::to_mpi` (Curve25519Legacy): `Mpi::from_slice(to_bytes_rev())` (leading zero
+octets of the big-endian value are not written) then `Serialize for Mpi` -/
+def c25519SecretMpi (le : Bytes) : Bytes :=
+  if Gen.fixD8fC25519Export = 1 then mpiWrite (mpiFromSlice le.reverse) else c25519SecretMpiPreFix le
+
+/-- `Mpi::try_from_reader` then `Curve25519Legacy::try_from_bytes_rev`: `pad_key::<32>` on the
+big-endian value (restoring its leading zero octets), then reverse -/
+def c25519SecretRead (inp : Bytes) : Option (Bytes × Bytes) :=
+  if Gen.fixD8fC25519Import = 1 then
+    match mpiRead inp with
+    | none => none
+    | some (d, rest) =>
+      match padKey Gen.c25519PadLen d with
+      | none => none
+      | some k => some (k.reverse, rest)
+  else c25519SecretReadPreFix inp
 
 /-- `curve25519_dalek::scalar::clamp_integer` sets bit 254 and clears bit 255: the last octet of
 the little-endian scalar is in 64..127 -/
